@@ -145,7 +145,7 @@ Section Arith.
   Proof.
     intros d Hd q. subst q. unfold quantize. fold n.
     destruct (Z.eqb_spec n 0) as [E|NE].
-    - rewrite E in *. split; [lia|]. rewrite HR. rewrite E. change (2 * 0 + 1) with 1.
+    - rewrite E in *. split; [lia|]. rewrite HR. change (2 * 0 + 1) with 1.
       rewrite Z.div_1_r. lia.
     - assert (Hs : 0 < 2 * n + 1) by lia.
       destruct (Z.gtb_spec d 0) as [Hpos|Hneg].
@@ -173,7 +173,8 @@ Section Arith.
     rewrite Z.quot_div_nonneg by lia.
     assert (Hh : 2 * ((R + 1) / 2) <= R + 1 < 2 * ((R + 1) / 2) + 2) by (Z.div_mod_to_equations; lia).
     assert (Hh2 : 2 * (R / 2) <= R < 2 * (R / 2) + 2) by (Z.div_mod_to_equations; lia).
-    destruct (Z.ltb_spec q 0); destruct (Z.geb_spec _ ((R + 1) / 2)); lia.
+    destruct (Z.ltb_spec q 0);
+      match goal with |- context [?a >=? ?b] => destruct (Z.geb_spec a b) end; lia.
   Qed.
 
   Lemma land_mv : forall v, Z.land v mv = v mod 2 ^ P.
